@@ -28,7 +28,7 @@ type CaseC18 struct {
 	FailAt   int     `json:"fail_at"`   // index of the packet write that fails, -1 = none
 	FailN    int     `json:"fail_n"`    // count returned by the failing packet write
 	Ctor     int     `json:"ctor"`      // 0 IOWriter, 1 IOWriteCloser, 2 IOWriter(PacketWriterFunc), 3 IOWriteCloser(NopCloser(func)), 4/5 as 0/1 with a packet writer that also has its own Write method
-	ErrKind  int     `json:"err_kind"`  // error the failing reader returns: 0 plain, 1 timeout-like (Timeout() true), 2 os.ErrDeadlineExceeded, 3 io.ErrNoProgress, 4 wraps io.EOF, 5 wraps io.ErrUnexpectedEOF
+	ErrKind  int     `json:"err_kind"`  // error the failing reader returns: 0 plain, 1 timeout-like (Timeout() true), 2 os.ErrDeadlineExceeded, 3 io.ErrNoProgress, 4 wraps io.EOF, 5 wraps io.ErrUnexpectedEOF, 6 io.ErrUnexpectedEOF itself
 	Reader   int     `json:"reader"`    // 0 bytes.Reader 1 bufio 2 one-byte 3 half 4 data-with-EOF 5 chunks
 	Chunks   []int   `json:"chunks"`    // for reader kind 5
 	ReadFail int     `json:"read_fail"` // reader fails with its own error after this many bytes, -1 = never
@@ -50,7 +50,7 @@ func genC18(t *rapid.T) CaseC18 {
 		c.FailN = rapid.SampledFrom([]int{0, 0, 188, 10}).Draw(t, "fail-n")
 	}
 	c.Ctor = rapid.IntRange(0, 5).Draw(t, "ctor")
-	c.ErrKind = rapid.IntRange(0, 5).Draw(t, "err-kind")
+	c.ErrKind = rapid.IntRange(0, 6).Draw(t, "err-kind")
 	c.Reader = rapid.IntRange(0, 5).Draw(t, "reader")
 	if c.Reader == 5 {
 		c.Chunks = rapid.SliceOfN(rapid.IntRange(1, 400), 1, 6).Draw(t, "chunks")
@@ -124,6 +124,9 @@ func c18ReaderErr(kind int) error {
 		return errC18WrapsEOF
 	case 5:
 		return errC18WrapsUnexpectedEOF
+	case 6:
+		// what a decompressing or length-framed reader reports for a truncated source: its own failure, not a clean end
+		return io.ErrUnexpectedEOF
 	}
 	return errC18Reader
 }
@@ -167,7 +170,41 @@ func c18Delivered(sink *c18Sink, data []byte, wantCount int, what string) *hx.Fa
 	return nil
 }
 
-func checkC18(c CaseC18, x *hx.Ctx) *hx.Failure {
+// c18BystanderPacket is packet i of the traffic of a second, unrelated adapter.
+func c18BystanderPacket(i int) []byte {
+	p := bytes.Repeat([]byte{byte(0xB0 + i)}, 188)
+	copy(p, []byte{0x47, 0x1F, 0xFE, 0x10 | byte(i&15)})
+	return p
+}
+
+func checkC18(c CaseC18, x *hx.Ctx) (fail *hx.Failure) {
+	// a second adapter over its own packet writer is used between the calls under test (Write, ReadFrom in
+	// one-byte reads, Write): adapters are independent objects
+	sinkB := &c18Sink{failAt: -1}
+	wB := c18Writer(CaseC18{Ctor: c.Ctor}, sinkB)
+	feedB := func(i int) *hx.Failure {
+		var n int64
+		var err error
+		if i%2 == 0 {
+			var k int
+			k, err = wB.Write(c18BystanderPacket(i))
+			n = int64(k)
+		} else {
+			n, err = wB.(io.ReaderFrom).ReadFrom(iotest.OneByteReader(bytes.NewReader(c18BystanderPacket(i))))
+		}
+		if n != 188 || err != nil || len(sinkB.got) != i+1 || !bytes.Equal(sinkB.got[i], c18BystanderPacket(i)) {
+			return hx.Failf("bystander-adapter", "packet %d sent through a second adapter between the calls under test: returned (%d, %v), its packet writer has seen %d packets", i, n, err, len(sinkB.got))
+		}
+		return nil
+	}
+	if f := feedB(0); f != nil {
+		return f
+	}
+	defer func() {
+		if fail == nil {
+			fail = feedB(2)
+		}
+	}()
 	data := c18Data(c)
 	keep := clone(data)
 	total := len(data)
@@ -213,6 +250,10 @@ func checkC18(c CaseC18, x *hx.Ctx) *hx.Failure {
 		if cerr := wc.Close(); cerr != nil || sink.closed != 1 {
 			return hx.Failf("close", "Close did not reach the wrapped closer exactly once (err %v, closed %d)", cerr, sink.closed)
 		}
+	}
+
+	if f := feedB(1); f != nil {
+		return f
 	}
 
 	// ---- ReadFrom
